@@ -84,6 +84,8 @@ type chainRun struct {
 	state    string
 	stuck    bool // the generator cannot serve this section size: the index stays empty
 	sampled  bool
+	park     *parkDB // non-nil for mid-section chains
+	extraQ   []query // forced queries added by the current state
 	// how the current index progress is read and a query executed (the service
 	// leg substitutes the node's own backend and RPC)
 	sections func() uint64
@@ -100,6 +102,7 @@ func runChains(c *fw.Ctx) {
 	for i := 0; i < n; i++ {
 		runChain(c, i)
 	}
+	runMidSections(c)
 }
 
 // generatorWorks probes bloombits.Generator for a section size: after a full
@@ -250,7 +253,14 @@ func runChain(c *fw.Ctx, i int) {
 
 func (cr *chainRun) build(cfg *params.ChainConfig) {
 	cr.buildLedger(cfg)
-	db, _ := cr.w.NewDB()
+	mem, _ := cr.w.NewDB()
+	var db aquadb.Database = mem
+	if cr.park != nil {
+		// mid-section chains: the chain and the indexer read through a database
+		// that can hold one chosen read of processSection (see midsection.go)
+		cr.park.Database = mem
+		db = cr.park
+	}
 	bc, err := cr.w.NewChain(db, nil)
 	if err != nil {
 		panic(err)
@@ -353,7 +363,9 @@ func (cr *chainRun) importAndSettle(id string, blocks []*types.Block) bool {
 	c := cr.c
 	ok := false
 	c.Case(fmt.Sprintf("%s/%s/import", id, cr.state), map[string]interface{}{"chain": cr.d, "blocks": len(blocks)}, func() {
-		if _, err := cr.bc.InsertChain(types.Blocks(blocks)); err != nil {
+		if len(blocks) == 0 {
+			// settle only
+		} else if _, err := cr.bc.InsertChain(types.Blocks(blocks)); err != nil {
 			// the generator produced a block the node rejects: not a C16 matter
 			panic(fmt.Sprintf("harness: InsertChain failed: %v", err))
 		}
@@ -597,6 +609,7 @@ func (cr *chainRun) forced() []query {
 			}
 		}
 	}
+	qs = append(qs, cr.extraQ...)
 	vias := []string{"filter", "api", "api_json", "api_installed"}
 	off := r.Intn(4)
 	for i := range qs {
